@@ -216,6 +216,8 @@ def _enc_expr(env, e, acc, allow_none=False):
         if fn in ("struct.pack", "pack"):
             return _pack_terms(env, e)
         if last in WRITERS:
+            if WRITERS[last] == "STR":
+                return [("STR", env.canon(e.args[0]), last.split("_")[-1])]  # kind: ascii / text / bytes
             return [(WRITERS[last], env.canon(e.args[0]))]
         if fn == 'b"".join' or fn == "b''.join":
             a = e.args[0]
@@ -286,7 +288,7 @@ def normalise(terms):
         if t[0] == "P" and isinstance(t[2], str) and t[2].startswith("len(") and nxt is not None:
             inner = t[2][4:-1]
             if t[1] == "INT16" and nxt[0] == "RAW" and nxt[1] == inner:
-                out.append(("STR", inner))
+                out.append(("STR", inner, "raw"))
                 i += 2
                 continue
             if t[1] == "INT32" and nxt[0] in ("RAW", "MSGSET") and (nxt[1] == inner or nxt[0] == "MSGSET"):
@@ -378,7 +380,10 @@ def _dec_block(env, stmts):
                 out.extend(_unpack_terms(env, st, vt))
                 continue
             if fn in READERS and vt is not None:
-                out.append((READERS[fn], norm(vt)))
+                if READERS[fn] == "STR":
+                    out.append(("STR", norm(vt), fn.split("_")[-1]))
+                else:
+                    out.append((READERS[fn], norm(vt)))
                 continue
         if isinstance(st, ast.Assign):
             _note_flow(env, st)
